@@ -29,7 +29,7 @@ def handle (line : String) : String :=
   | kind :: rest =>
     match allHandlers.find? (·.1 == kind) with
     | some (_, h) => h (parseFields rest)
-    | none => "bad-kind"
+    | none => if kind.startsWith "x" then "oracle-only" else "bad-kind"
 
 partial def loop (h : IO.FS.Stream) (out : IO.FS.Stream) : IO Unit := do
   let line ← h.getLine
